@@ -1,5 +1,5 @@
 (* Laws of the translator's target semantics used by the theorems about translated code (/verif/gen). *)
-From Coq Require Import ZArith Lia String Bool.
+From Coq Require Import ZArith Lia String Bool List.
 From HS Require Import Base.GoSem.
 Open Scope Z_scope.
 
@@ -34,3 +34,57 @@ Proof. reflexivity. Qed.
 
 Lemma bind_Val {A B} (a : A) (k : A -> res B) : bind (Val a) k = k a.
 Proof. reflexivity. Qed.
+
+(* ---- bytes, shifts, bit operations, []byte (used by gen/C19Gen.v) ---- *)
+Lemma in_range_U8 x : in_range U8 x <-> 0 <= x < 256.
+Proof. unfold in_range. simpl. change (2 ^ 8) with 256. tauto. Qed.
+Lemma wrap_U8 x : 0 <= x < 256 -> wrap U8 x = x.
+Proof. intros. apply wrap_id, in_range_U8. assumption. Qed.
+
+Lemma bits_pos t : 0 < bits t.
+Proof. destruct t; simpl; lia. Qed.
+
+(* from the width on, every bit is shifted out: the middle branch of go_shl is the general formula *)
+Lemma wrap_shiftl_high t a n : bits t <= n -> wrap t (Z.shiftl a n) = 0.
+Proof.
+  intros H. pose proof (bits_pos t) as Hb.
+  rewrite Z.shiftl_mul_pow2 by lia.
+  replace n with ((n - bits t) + bits t) by lia. rewrite Z.pow_add_r by lia.
+  rewrite Z.mul_assoc. unfold wrap. destruct (signed t).
+  - rewrite Z.add_comm, Z_mod_plus_full. rewrite Z.mod_small; [lia|].
+    split; [apply Z.pow_nonneg; lia|]. apply Z.pow_lt_mono_r; lia.
+  - apply Z_mod_mult.
+Qed.
+
+Lemma go_shl_general t a n : 0 <= n -> go_shl t a n = Val (wrap t (Z.shiftl a n)).
+Proof.
+  intros H. unfold go_shl. destruct (Z.ltb_spec n 0); [lia|].
+  destruct (Z.leb_spec (bits t) n); [|reflexivity]. now rewrite wrap_shiftl_high.
+Qed.
+
+Lemma go_shl_negative t a n : n < 0 -> go_shl t a n = Panic "negative shift amount".
+Proof. intros H. unfold go_shl. destruct (Z.ltb_spec n 0); [reflexivity | lia]. Qed.
+
+Lemma go_index_z_in l i :
+  0 <= i < Z.of_nat (length l) -> go_index_z l i = Val (nth (Z.to_nat i) l 0).
+Proof.
+  intros H. unfold go_index_z.
+  destruct (Z.leb_spec 0 i); [|lia]. destruct (Z.ltb_spec i (Z.of_nat (length l))); [|lia]. reflexivity.
+Qed.
+
+Lemma go_index_z_out l i :
+  ~ 0 <= i < Z.of_nat (length l) -> go_index_z l i = Panic "index out of range".
+Proof.
+  intros H. unfold go_index_z.
+  destruct (Z.leb_spec 0 i); destruct (Z.ltb_spec i (Z.of_nat (length l))); try reflexivity. lia.
+Qed.
+
+Lemma go_set_index_in {A} (l : list A) i x :
+  0 <= i < Z.of_nat (length l) -> go_set_index l i x = Val (upd_nth l (Z.to_nat i) x).
+Proof.
+  intros H. unfold go_set_index.
+  destruct (Z.leb_spec 0 i); [|lia]. destruct (Z.ltb_spec i (Z.of_nat (length l))); [|lia]. reflexivity.
+Qed.
+
+Lemma go_extend_nonneg l n : 0 <= n -> go_extend l n = Val (l ++ repeat 0 (Z.to_nat n)).
+Proof. intros H. unfold go_extend. destruct (Z.ltb_spec n 0); [lia | reflexivity]. Qed.
